@@ -4,6 +4,7 @@ package main
 
 import (
 	"bufio"
+	"encoding/base64"
 	"encoding/json"
 	"fmt"
 	"os"
@@ -86,3 +87,5 @@ func ints(s []int) []int {
 	}
 	return s
 }
+
+func b64(s string) string { return base64.StdEncoding.EncodeToString([]byte(s)) }
